@@ -744,14 +744,17 @@ func Stack[V any](arguments ...any) col.StackLike[V] {
 	case sequence != nil:
 		stack = class.MakeFromSequence(sequence)
 	case len(source) > 0:
-		stack = class.Make()
 		var collection = notation.ParseSource(source).(col.Sequential[any])
 		// Convert the values to their real type.
+		values = make([]V, 0, collection.GetSize())
 		var iterator = collection.GetIterator()
 		for iterator.HasNext() {
 			var value = iterator.GetNext().(V)
-			stack.AddValue(value)
+			values = append(values, value)
 		}
+		// The first value is the top of the stack, as in the parsed collection,
+		// and the capacity must be large enough for all of the values.
+		stack = class.MakeFromArray(values)
 	default:
 		stack = class.Make()
 	}
